@@ -95,6 +95,8 @@ def witness_matches(entry, ob, fail):
     if entry.get("state") != "known" or entry.get("obligation") != ob["name"]:
         return False
     w = entry.get("witness") or {}
+    if "pairs" in w:
+        return [fail.get("event"), fail.get("status")] in w["pairs"]
     if "events" in w:
         return fail.get("event") in w["events"] and ("statuses" not in w or fail.get("status") in w["statuses"])
     if "pos_suffix" in w:
